@@ -12,6 +12,10 @@ import (
 
 const maxPaths = 3000
 
+// seedRegisters: also use every int-valued SSA register as an instantiation seed
+// (off: element accesses and goal skolems are the triggers)
+var seedRegisters = true
+
 type workItem struct {
 	st   *State
 	b    *ssa.BasicBlock
@@ -235,6 +239,9 @@ func (r *funcRun) execBlock(st *State, b *ssa.BasicBlock, pred *ssa.BasicBlock) 
 
 // seedValue registers integer-valued registers as quantifier instantiation seeds.
 func (r *funcRun) seedValue(st *State, val ssa.Value) {
+	if !seedRegisters {
+		return
+	}
 	v, ok := st.regs[val.Name()]
 	if !ok {
 		return
@@ -866,6 +873,8 @@ func (r *funcRun) sliceOp(st *State, x *ssa.Slice) {
 		res := MkSlice(SlArr(s), Add(SlOff(s), *lo), Sub(h, *lo), Sub(m, *lo))
 		c := st.freshConst("sl_"+x.Name(), SSlice)
 		st.assume(Ident(c, res))
+		// bridge: position i of the sub-slice is position lo+i of the sliced one
+		st.cmds = append(st.cmds, fmt.Sprintf("(assert (forall ((i Int)) (! (= (at %s i) (at %s (+ %s i))) :pattern ((at %s i)))))", c.S, s.S, lo.S, c.S))
 		st.regs[x.Name()] = c
 	case *types.Pointer:
 		at := u.Elem().Underlying().(*types.Array)
